@@ -16,12 +16,15 @@ def inst_line(addr, mnemonic, ops, pad=2, raw="90", annot=""):
     return " " * pad + f"{addr}:\t{raw_col}\t{text}{annot}"
 
 
-def render(insts, header=True, label="f", pad=2, cont=()):
-    """cont: indices of instructions printed as > 7 bytes long, i.e. followed by a byte-continuation line."""
+def render(insts, header=True, label="f", pad=2, cont=(), sections=None):
+    """cont: indices of instructions printed as > 7 bytes long, i.e. followed by a byte-continuation line.
+    sections: {index: name} - a new `Disassembly of section <name>:` block (with its label line) starts at that instruction."""
     out = list(HEADER) if header else []
     if label is not None and insts:
         out.append(f"{int(insts[0][0], 16):016x} <{label}>:")
     for k, (a, m, ops) in enumerate(insts):
+        if sections and k in sections:
+            out += ["", f"Disassembly of section {sections[k]}:", "", f"{int(a, 16):016x} <{sections[k].strip('.').replace('.', '_')}>:"]
         if k in cont:
             out.append(inst_line(a, m, ops, pad=pad, raw="48 b8 88 77 66 55 44"))
             out.append(" " * pad + f"{int(a, 16) + 7:x}:\t33 22 11 ")
